@@ -3,6 +3,7 @@ from fractions import Fraction as Fr
 import numpy as np
 from .common import guarded, run_model
 from . import randtests as rt
+from .prng import TreeRS
 from .exhaust import designs_unstratified, impl_tail, tails
 
 RULE = ("(a) recorded-draw runs of two_sample, two_sample_shift, one_sample, corr, spearman_corr, k_sample on generated "
@@ -19,8 +20,9 @@ LEVEL = ("theorems: p = (H+c)/(reps+c) and two-sided = min(1, 2 min) (corePValue
 ASSUMPTIONS = ["the raw draws (SHA-256 counter mode / Mersenne Twister) are an ideal uniform source; int(i + U(n-i)) granularity 2^-53",
                "t statistics and correlation coefficients are doubles: simulated values that tie the observed one exactly (or within "
                "1e-9) may be counted either way unless the rearranged arrays are identical to the observed ones (bracket)",
-               "reallocation is proved uniform over orderings of the pooled units (what a statistic actually receives); the "
-               "nx!ny!-to-one projection onto subsets is not formalised"]
+               "reallocation is proved uniform over orderings of the pooled units (what a statistic actually receives) and, by "
+               "Uniform2.alloc_fiber / alloc_fiber_draws, over the subsets allocated to the first sample (every subset has the same "
+               "number nx!(N-nx)! of draw vectors)"]
 
 
 def run(ctx):
@@ -45,6 +47,16 @@ def run(ctx):
             elif arities != {arity}:
                 ctx.violation("oracle", {"design": name, "issue": "the generator is asked for draws with other ranges than the design needs",
                                          "requested": [list(a) for a in list(arities)[:3]], "expected": list(arity)}, site=site)
+            # the same design driven by a scripted generator of type numpy RandomState (code that branches on the generator's type)
+            try:
+                got_rs, _, leaves_rs, _ = impl_tail(call, alt, 1, cls=TreeRS)
+            except RuntimeError as ex:
+                ctx.violation("oracle", {"design": name, "alternative": alt, "generator": "RandomState-typed scripted generator", "issue": str(ex)}, site=site); continue
+            ctx.count("exhaustive-designs-randomstate"); ctx.count("exhaustive-leaves", leaves_rs)
+            if got_rs != exact:
+                ctx.violation("oracle", {"design": name, "alternative": alt, "generator": "RandomState-typed scripted generator",
+                                         "issue": "hit probability over the whole choice space differs from the exact permutation tail",
+                                         "implementation": str(got_rs), "exact": str(exact), "leaves": leaves_rs}, site=site)
         # two repetitions jointly (persisting list / independence): P(both hit) = p*^2, E[p] = p*
         if len(vals) <= 24:
             try:
